@@ -5,10 +5,13 @@ HOOK_COMMITS = [
     "de55c5c",  # scheduler enter/leave tracer + VerifSnapshot
     "1e05bf9",  # file pool quota counters / free sector count
     "78d63cc",  # pool-backed file counters
+    "dae9147",  # NFSv4.1 program state export
+    "79725d5",  # NFSv4.0 program state export
+    "8b54f47",  # lock probes (directories, files, handle allocator, opened files pool, idle invoker, sector allocator)
 ]
 
 # harness packages compiled by bin/setup (those of the registered checks)
-SETUP_PACKAGES = ["brl", "sched", "buildclient", "filepool", "execpipe", "poolfile", "inputroot", "suspclock", "outputs"]
+SETUP_PACKAGES = ["brl", "sched", "buildclient", "filepool", "execpipe", "poolfile", "inputroot", "suspclock", "outputs", "nfs40", "nfs41", "locks", "lockrace"]
 
 NOT_APPLICABLE = {}
 
@@ -92,3 +95,33 @@ CHECKS["C10"] = {
     "note": _NOTE + " Trusted: the harness' tree walk, digest->content table and Tree wire decoder. Ordering of ActionResult lists is free. Declared paths below a symlink are not judged.",
     "technique": "TLA+ reference model + TLC validation of real-code cases (small-space enumeration + seeded random)",
 }
+
+_NFS_NOTE = _NOTE + (" NFS: byte contents of READ/WRITE, attribute encoding, READDIR/LINK/CREATE and backchannel are not modelled; one state-changing "
+                     "operation per COMPOUND in the NFSv4.0 drivers; a request 'differs in content' when its sequence of operation types differs "
+                     "(NFSv4.1) / the operation type differs (NFSv4.0), as RFC 7530 9.1.9 permits; concurrency is limited to I/O held in flight "
+                     "inside instrumented leaves and duplicates of requests in flight. Known findings K1/K2 (one lock-owner through two "
+                     "open-owners on one file) are listed in known_findings.jsonl.")
+_NFS_TECH = "TLA+ reference models NFS40.tla / NFS41.tla checked by TLC; TLC validation of real-server traces (scripted corner cases, seeded random multi-client histories, TLC-simulated behaviours replayed on the NFSv4.0 server)"
+PENDING["C18"] = {
+    "text": "NFS40.tla and NFS41.tla are reference models of the two servers at the granularity of their lock sections (clients/confirmations/incarnations, sessions and slots, open-owners, open-owner files with share counts incl. lock-owner and in-flight-I/O clones, two-phase CLOSE, lock-owners, lock-owner files, per-file lock tables, opened-files pool, lease and unused-owner expiry); TLC checks C18_Balance/Counts/Reach/StateIds/Final on bounded configurations. The real NewNFS40Program / NewNFS41Program over a real in-memory directory, NFS handle allocator and OpenedFilesPool with instrumented leaves (counting every open/close per access bit, gating I/O) are driven by scripted special cases, seeded random multi-client histories and TLC-simulated behaviours; every reply, leaf counter and hook snapshot is validated by TLC against the models; each history ends with the clients vanishing, the clock passing the lease and a final snapshot.",
+    "design_ref": "DESIGN.md section 5 (C18)", "note": _NFS_NOTE, "technique": _NFS_TECH,
+}
+PENDING["C19"] = {
+    "text": "The same models carry the replay machinery (NFSv4.0: per open-owner/lock-owner seqid, cached last response, same-operation-type rule, isNextStateID, the RFC 7530 9.1.7 list of errors that do not advance the seqid, two-phase CLOSE; NFSv4.1: slot lastSeq/lastResult/in-flight waiters, sa_cachethis and RETRY_UNCACHED_REP, shape check and SEQ_FALSE_RETRY, CREATE_SESSION replay); TLC checks C19_Once/Same/Misordered/FalseRetry/InFlight on bounded configurations. Real-code histories include retransmissions (same and different content), misordered and old sequence numbers, and duplicates arriving while the original is held inside a gated leaf read (inside testing/synctest; a duplicate that never returns is logged and judged); TLC compares every retransmitted reply byte-for-byte (hash) with the first and checks the absence of effects of rejected/replayed requests.",
+    "design_ref": "DESIGN.md section 5 (C19)", "note": _NFS_NOTE, "technique": _NFS_TECH,
+}
+CHECKS["C20"] = {
+    "text": "Table level: ByteRangeLocks.tla is a per-byte reference table checked exhaustively by TLC for POSIX record-lock rules; the real ByteRangeLockSet is driven by seeded random histories and by an exhaustive every-operation-from-every-state enumeration of a small domain, and TLC validates every reply/list against the reference. NFS level: in NFS40.tla / NFS41.tla one protocol lock-owner is one table owner across opens, files and open-owners; LOCK/LOCKT/LOCKU/CLOSE/lease expiry keep lockCount = number of table entries of that owner on that file (which gates RELEASE_LOCKOWNER / FREE_STATEID), denied replies report a really conflicting range and owner, offset/length edge cases (length 0, all-ones = to EOF, overflow); the real servers' traces (with hook snapshots of the lock tables) are validated by TLC against these models.",
+    "design_ref": "DESIGN.md section 5 (C20)", "note": _NFS_NOTE, "technique": "TLA+ reference models + TLC validation of real-code traces (lock table: random + exhaustive small-domain enumeration; NFS servers: scripted + random + simulated behaviours)",
+}
+PENDING["C14"] = {
+    "text": "(b) LockPile.tla models lock_pile.go one primitive operation per action; TLC checks mutual exclusion, no leaked lock, pile = locks held at call boundaries, blocking only empty-handed, no wait-for cycle, the return value and deadlock freedom exhaustively up to 3 threads x 3 locks (liveness under fairness for one backing-off thread); the real LockPile runs over gated TryLocker fakes with schedules from context-bounded DFS and seeded random runs, judged by LockPileTrace.tla. (a) Lock balance: every public method of the real in-memory directory is swept across receiver states x name classes (rename across target classes in both directions), seeded random sequences incl. removed and lazily initialised failing directories; pool-backed files, OpenedFilesPool, IdleInvoker and the sector allocator likewise, with faults injected in pool, symlink factory and fetcher; after every call all known locks are probed with TryLock hooks under a watchdog; LockBalanceTrace.tla checks C14_Balance and reports which outcome classes were reached (UNEXERCISED ones are listed). (c) Six workers issue overlapping calls (renames in opposite directions, removal of directories being entered, bulk removals) on one real tree with a watchdog that reports a deadlock when every unfinished worker is parked in sync.Mutex.Lock. The scheduler's lock is probed at the end of every scheduler trace (Sched family).",
+    "design_ref": "DESIGN.md section 4 (C14)",
+    "note": _NOTE + " The static 'every control-flow path' reading is not decided, only the dynamic one (unexercised outcome classes and unreached blocks are listed in the evidence); sync.Mutex is assumed starvation free; directory cycles are not exercised.",
+    "technique": "TLA+ model of LockPile checked by TLC + gated replay; lock-probe traces of the real file system objects validated by TLC; concurrent stress with deadlock watchdog",
+}
+
+CHECKS["C18"] = PENDING.pop("C18")
+CHECKS["C19"] = PENDING.pop("C19")
+CHECKS["C14"] = PENDING.pop("C14")
+CHECKS["C20"]["text"] += " Parallel level: eight lock-owners of different clients ask for overlapping ranges of one opened file at the same moment (real goroutines, spin barrier); 'granted' is logged after Lock() returned and 'releasing' before UnlockAll() is called, and LockRaceTrace.tla checks that no two different owners ever hold conflicting locks at once."
